@@ -164,7 +164,7 @@ impl Prop for Faults {
                         None => false,
                     }
                 }
-                Ev::SeekSkipped | Ev::Policy => false,
+                Ev::SeekSkipped | Ev::Policy | Ev::Cloned { .. } => false,
             };
             if !ok {
                 let got = match &step.ev {
